@@ -15,3 +15,5 @@ def run(ck):
     matrix.r8_forward_reverse_order(ck, P)
     wide128.r9_negate_128(ck, P)
     matrix.r10_affine_helper_precondition(ck, P)
+    matrix.r11_product_indices(ck, P)
+    matrix.r12_inverse_guarded(ck, P)
